@@ -354,16 +354,20 @@ class HierDictDocument(DictDocument):
                 if subinst is None:
                     subinst = []
 
+                nitems = len(subinst)
                 for a in v:
                     subinst.append(
                             self._from_dict_value(ctx, k, member, a, validator))
 
+                # min_occurs and max_occurs bound the number of values, not the
+                # number of keys that carry them.
+                frequencies[k] += len(subinst) - nitems
+
             else:
                 subinst = self._from_dict_value(ctx, k, member, v, validator)
+                frequencies[k] += 1
 
             inst._safe_set(k, subinst, member, member_attrs)
-
-            frequencies[k] += 1
 
         attrs = self.get_cls_attrs(cls)
         if validator is self.SOFT_VALIDATION and attrs.validate_freq:
